@@ -44,19 +44,37 @@ def impl_dense(c):
 
 
 def _inner_product_check(op, in_shape, out_shape, dt, seed=7):
-    """<A u, v> - <u, A^H v> for random (complex where allowed) Gaussian-integer u, v: the statement itself."""
+    """<A u, v> - <u, A^H v> for random Gaussian-integer u, v: the statement itself, "for real and complex data": besides the operator's
+    own dtype also a real-dtype u and/or a real-dtype v (where the operator accepts them; a dtype it rejects by raising is skipped).
+    Returns the worst combination."""
     g = torch.Generator().manual_seed(seed)
 
-    def rnd(shape):
+    def rnd(shape, d):
         re = torch.randint(-4, 5, shape, generator=g).to(torch.float64)
         im = torch.randint(-4, 5, shape, generator=g).to(torch.float64)
-        return (re + 1j * im).to(dt) if dt.is_complex else re.to(dt)
-    u, v = rnd(list(in_shape)), rnd(list(out_shape))
-    (au,), (ahv,) = op(u), op.adjoint(v)
-    lhs = torch.vdot(v.reshape(-1).to(torch.complex128), au.reshape(-1).to(torch.complex128))
-    rhs = torch.vdot(ahv.reshape(-1).to(torch.complex128), u.reshape(-1).to(torch.complex128))
-    scale = max(1.0, abs(lhs), abs(rhs))
-    return [float(abs(lhs - rhs)) / scale, [lhs.real.item(), lhs.imag.item()], [rhs.real.item(), rhs.imag.item()]]
+        return (re + 1j * im).to(d) if d.is_complex else re.to(d)
+    real_dt = {torch.complex128: torch.float64, torch.complex64: torch.float32}.get(dt, dt)
+    combos = [(dt, dt)] + ([(real_dt, dt), (dt, real_dt), (real_dt, real_dt)] if dt.is_complex else [])
+    worst = None
+    for du, dv in combos:
+        u, v = rnd(list(in_shape), du), rnd(list(out_shape), dv)
+        try:
+            (au,), (ahv,) = op(u), op.adjoint(v)
+        except (RuntimeError, ValueError, TypeError):
+            if (du, dv) == (dt, dt):
+                raise
+            continue       # this operator does not accept that dtype at all (e.g. torch.einsum with mixed dtypes)
+        if list(au.shape) != list(out_shape) or list(ahv.shape) != list(in_shape):
+            if (du, dv) == (dt, dt):
+                raise AssertionError(f'shapes: A u {list(au.shape)} vs {list(out_shape)}, A^H v {list(ahv.shape)} vs {list(in_shape)}')
+            continue
+        lhs = torch.vdot(v.reshape(-1).to(torch.complex128), au.reshape(-1).to(torch.complex128))
+        rhs = torch.vdot(ahv.reshape(-1).to(torch.complex128), u.reshape(-1).to(torch.complex128))
+        scale = max(1.0, abs(lhs), abs(rhs))
+        r = [float(abs(lhs - rhs)) / scale, [lhs.real.item(), lhs.imag.item()], [rhs.real.item(), rhs.imag.item()], f'u {du}, v {dv}'.replace('torch.', '')]
+        if worst is None or r[0] > worst[0]:
+            worst = r
+    return worst
 
 
 def _mat(o, key):
@@ -74,7 +92,7 @@ def oracle_adjoint(c, o):
         return f'adjoint maps to a space of different size: F {F.shape} G {G.shape}'
     tol = TOL.get(c['cls'], 0.0)
     if 'ip' in o and o['ip'][0] > max(tol, 1e-12):
-        return f'<A u, v> = {o["ip"][1]} but <u, A^H v> = {o["ip"][2]} for random complex u, v (seed 7) of shapes {o["in"]}, {o["out"]}'
+        return f'<A u, v> = {o["ip"][1]} but <u, A^H v> = {o["ip"][2]} for random u, v (seed 7; dtypes {o["ip"][3] if len(o["ip"]) > 3 else "complex"}) of shapes {o["in"]}, {o["out"]}'
     D = np.abs(G - F.conj().T)
     scale = max(1.0, np.abs(F).max() if F.size else 1.0)
     if D.size and D.max() > tol * scale:
@@ -109,6 +127,11 @@ def cmp_dense(c, o, m):
 
 def descr(c):
     d = {k: v for k, v in c.items() if isinstance(v, (str, int, bool, float))}
+    if c.get('cls') == 'WaveletOp':
+        import pywt
+        d['wavelet_ndim'] = len(c['domain'])
+        # level=None selects the highest possible level; for a filter as long as the axis that is level 0 (the transform is the identity)
+        d['zero_level'] = bool(c.get('level') is None and pywt.dwtn_max_level(c['domain'], c['wavelet']) == 0)
     return d
 
 
@@ -250,6 +273,11 @@ def gen_wavelets(rng, tier):
         if i < 13:
             c['level'] = 1 + (i % 2)
         out.append(c)
+    # fixed: 1-, 2- and 3-D transforms with an explicit level below the maximal one, and with the maximal / default one
+    for dom in ([8], [8, 8], [4, 4, 4], [8, 4, 4]):
+        for lvl in (1, None):
+            for fam in ('haar', 'db2'):
+                out.append({'cls': 'WaveletOp', 'wavelet': fam, 'domain': dom, 'batch': [], 'level': lvl, 'complex': True})
     return out
 
 
@@ -264,7 +292,7 @@ def gen_grid_modes(rng, tier):
                     if interp == 'bicubic':
                         c['dim'], c['input'][0] = 2, 1
                         c['out'] = c['out'][-2:]
-                    n = c['B'] * opzoo.prod(c['out']) * c['dim']
+                    n = c['B'] * max(c.get('B2', 0), 1) * opzoo.prod(c['out']) * c['dim']
                     c['grid'] = [rng.randint(-20, 20) / 8 for _ in range(n)]
                     c.update({'interp': interp, 'pad': pad, 'align': align})
                     out.append(c)
